@@ -784,6 +784,8 @@ class SerializableEnumType(type):
                 cls.type_id = SerializableType.next_type_id
                 SerializableType.next_type_id += 1
 
+        if cls.type_id in SerializableType.registry:
+            raise ValueError("Serializable ID %d:%s already in use" % (cls.type_id, cls))
         SerializableType.registry[cls.type_id] = cls
         SerializableType.names[cls.__name__] = cls
 
